@@ -353,7 +353,7 @@ class C20(C.Check):
                 else:
                     checks.append(coq_term(lg, route, out))
                 meta.append((case, route))
-        bad = C.eval_cases(self.prop, "corr", HEADER, checks, shard=40)
+        bad = L.eval_cases_pid(C, self.prop, HEADER, checks, 40)
         for i in bad[:4]:
             case, route = meta[i]
             out = self.obs[i][2]
